@@ -709,6 +709,16 @@ func (e *Enc) fireAt(kind, name string, before bool, pos token.Pos, st *State, e
 			e.note("assume-at %s %s: %s (explicit assumption, not proved)", kind, name, aa.C.Src)
 			continue
 		}
+		// vacuity guard: the site itself must be reachable under everything assumed so
+		// far (a contradictory extern contract or invariant would prove anything here)
+		{
+			pc := "true"
+			if e.curBlock != nil {
+				pc = e.pc[e.curBlock]
+			}
+			e.obls = append(e.obls, &Obligation{Name: ShortKey(e.key) + "#" + fmt.Sprintf("cover.assert.%d@%s.%d", i+1, name, e.ords[cntKey]), Fn: e.key, Kind: "cover",
+				Pos: e.pos(pos), Prefix: len(e.asserts), Goal: sAnd(pc, cond), Expect: "sat", Desc: "assert-at site is reachable under the assumptions (vacuity guard)", enc: e})
+		}
 		e.oblige("assert", fmt.Sprintf("assert.%d@%s.%d", i+1, name, e.ords[cntKey]), sImp(cond, f), pos, "assert-at "+kind+" "+name+": "+aa.C.Src)
 	}
 	for i := range e.ctr.GhostAts {
